@@ -35,7 +35,7 @@ SchemaA == [dynamic |-> TRUE] @@ SchemaF(<<
     <<"ct", CtS>>,
     <<"citems", With(ListF(ItemC), [default |-> ListV(<<D1(<<"w">>, IntV(1)), D1(<<"w">>, IntV(1))>>)])>> >>)
 
-MCKeyNames == {"va", "vm", "mode", "is_dev_mode", "is_prod_mode", "ip", "net", "hostn", "url", "ratio", "flag", "blob", "port", "lvl", "lst", "dct", "nest", "addr", "cnt", "raw", "name", "port", "tags", "opts", "feat", "enabled", "key", "core", "srv", "host", "ct", "citems", "u", "m", "w", "l2", "ditems", "a", "s", "l", "d", "sub", "x", "y", "deep", "z", "items", "p", "q", "zz", "path", "newp"}
+MCKeyNames == {"va", "vm", "mode", "is_dev_mode", "is_prod_mode", "ip", "net", "hostn", "url", "ratio", "flag", "blob", "port", "lvl", "lst", "dct", "nest", "addr", "cnt", "raw", "name", "port", "tags", "opts", "feat", "enabled", "key", "core", "srv", "host", "ct", "citems", "u", "m", "w", "l2", "ditems", "a", "s", "l", "d", "sub", "x", "y", "deep", "z", "items", "p", "q", "zz", "path", "newp", "legacy"}
 MCKeyChars == [k \in MCKeyNames |->
     CASE k = "a" -> <<"a">> [] k = "s" -> <<"s">> [] k = "l" -> <<"l">> [] k = "d" -> <<"d">>
       [] k = "sub" -> <<"s","u","b">> [] k = "x" -> <<"x">> [] k = "y" -> <<"y">>
@@ -50,7 +50,8 @@ MCKeyChars == [k \in MCKeyNames |->
       [] k = "m" -> <<"m">> [] k = "w" -> <<"w">>
       [] k = "l2" -> <<"l","2">> [] k = "ditems" -> <<"d","i","t","e","m","s">>
       [] k = "p" -> <<"p">> [] k = "q" -> <<"q">> [] k = "zz" -> <<"z","z">>
-      [] k = "path" -> <<"p","a","t","h">> [] k = "newp" -> <<"n","e","w","p">>]
+      [] k = "path" -> <<"p","a","t","h">> [] k = "newp" -> <<"n","e","w","p">>
+      [] k = "legacy" -> <<"l","e","g","a","c","y">>]
 \* (one variable, set to a valid value that is falsy in Python; harness/props/cfgmachine.py sets it)
 MCEnviron == [n \in {<<"F", "V">>} |-> <<"0">>]
 
@@ -140,7 +141,10 @@ FeatS == [flagkey |-> "enabled", validators |-> <<"needs_key">>] @@
                     <<"srv", With(ListF(ItemV), [default |-> ListV(<<>>)])>> >>)
 DeepV == SchemaF(<< <<"z", With(StringF, [required |-> TRUE, default |-> s(<<"z", "z">>)])>> >>)
 CoreS == [validators |-> <<"x_lt_y">>, ctype |-> TRUE] @@
-         SchemaF(<< <<"x", With(IntF, [required |-> TRUE])>>, <<"y", With(IntF, [default |-> IntV(5)])>>, <<"deep", DeepV>> >>)
+         SchemaF(<< <<"x", With(IntF, [required |-> TRUE])>>, <<"y", With(IntF, [default |-> IntV(5)])>>, <<"deep", DeepV>>,
+                    \* declared twice: first as a feature flag, then - the declaration that counts - as the plain
+                    \* boolean it is now (the harness repeats the two assignments): the section has NO feature flag
+                    <<"legacy", With(BoolF, [default |-> BoolV(FALSE)]) @@ [redeclared |-> "flag"]>> >>)
 SchemaV == [validators |-> <<"always_ok">>] @@ SchemaF(<<
     <<"name", With(StringF, [required |-> TRUE])>>,
     <<"port", With(IntF, [default |-> IntV(80), fval |-> "v_even"])>>,
